@@ -495,10 +495,15 @@ Section Hsdp.
   Local Notation P := (hsdp_P ds upd apply).
   Local Notation bentries thr merge ms h := (map (fsdp_entry delem thr (fsdp_init thr merge ms) ms) h).
 
+  (* the skip rule as repaired (p_global_skip = true in blockP): every history is synchronised, starving ones included *)
+  Lemma hsdp_sync cast R gs owner thr merge ms (h : list (pentry elem)) :
+    sync_hyp (P cast R gs owner thr merge ms) (bentries thr merge ms h).
+  Proof. left. reflexivity. Qed.
+
   (* Every replica (i, j) of a shard column equals the FSDP-only run of that column whose communicated quantity goes
      through the rounding `cast` (block values, step counter, shards, states of owned blocks); no collective blocks. *)
   Theorem hsdp_eq_fsdp_plus_ddp cast R gs owner thr merge ms (T : list (list elem)) (h : list (pentry elem)) :
-    wf_config (P cast R gs owner thr merge ms) -> sync_hyp (P cast R gs owner thr merge ms) (bentries thr merge ms h) ->
+    wf_config (P cast R gs owner thr merge ms) ->
     exists c, hsdp_col_run ds delem upd apply cast R gs owner thr merge ms T h = Some c /\
       forall i, (i < R)%nat ->
         vals (cget c i) = svals (fsdp_run ds delem upd apply cast thr merge ms T h)
@@ -507,7 +512,7 @@ Section Hsdp.
         /\ forall b, (b < length (f_blocks (fsdp_init thr merge ms)))%nat -> owns (P cast R gs owner thr merge ms) i b = true ->
              nth b (sts (cget c i)) ds = nth b (ssts (fsdp_run ds delem upd apply cast thr merge ms T h)) ds.
   Proof.
-    intros WF Hs. unfold hsdp_col_run, hsdp_col_init.
+    intros WF. pose proof (hsdp_sync cast R gs owner thr merge ms h) as Hs. unfold hsdp_col_run, hsdp_col_init.
     destruct (ddp_lowprec_eq_rounded_serial (P cast R gs owner thr merge ms) (bentries thr merge ms h)
                 (map (gather_b delem T) (f_blocks (fsdp_init thr merge ms)))
                 (repeat ds (length (f_blocks (fsdp_init thr merge ms))))
@@ -522,7 +527,7 @@ Section Hsdp.
      optimizer leaves in the recovered pieces taken as independent parameters *)
   Corollary hsdp_eq_serial_on_recovered cast R gs owner thr merge ms (T : list (list elem)) (h : list (pentry elem)) :
     (forall v, cast v = v) ->
-    wf_config (P cast R gs owner thr merge ms) -> sync_hyp (P cast R gs owner thr merge ms) (bentries thr merge ms h) ->
+    wf_config (P cast R gs owner thr merge ms) ->
     1 <= thr -> Forall meta_ok ms -> tensors_ok ms T -> Forall (pentry_ok ms) h ->
     exists c, hsdp_col_run ds delem upd apply cast R gs owner thr merge ms T h = Some c /\
       forall i, (i < R)%nat ->
@@ -532,8 +537,8 @@ Section Hsdp.
              = zslice (nth (fst (nth k (rank_pieces ms) dip)) (hsdp_shards delem thr merge ms T c i) [])
                       (poff (snd (nth k (rank_pieces ms) dip))) (plen (snd (nth k (rank_pieces ms) dip))).
   Proof.
-    intros Hc WF Hs Hthr Hok HT Hh.
-    destruct (hsdp_eq_fsdp_plus_ddp cast R gs owner thr merge ms T h WF Hs) as [c [Hrun Hall]].
+    intros Hc WF Hthr Hok HT Hh.
+    destruct (hsdp_eq_fsdp_plus_ddp cast R gs owner thr merge ms T h WF) as [c [Hrun Hall]].
     exists c. split; [exact Hrun|]. intros i Hi. destruct (Hall i Hi) as (Hv & _ & Hsh & _).
     assert (E : fsdp_run ds delem upd apply cast thr merge ms T h = fsdp_run ds delem upd apply (fun v => v) thr merge ms T h).
     { unfold fsdp_run.
@@ -548,24 +553,24 @@ Section Hsdp.
 
   (* all replicas of a shard column hold identical shards and step counters, whatever the communication dtype *)
   Theorem hsdp_replicas_agree cast R gs owner thr merge ms (T : list (list elem)) (h : list (pentry elem)) c :
-    wf_config (P cast R gs owner thr merge ms) -> sync_hyp (P cast R gs owner thr merge ms) (bentries thr merge ms h) ->
+    wf_config (P cast R gs owner thr merge ms) ->
     hsdp_col_run ds delem upd apply cast R gs owner thr merge ms T h = Some c ->
     forall i i', (i < R)%nat -> (i' < R)%nat ->
       hsdp_shards delem thr merge ms T c i = hsdp_shards delem thr merge ms T c i' /\ stepc (cget c i) = stepc (cget c i').
   Proof.
-    intros WF Hs Hrun i i' Hi Hi'. unfold hsdp_col_run, hsdp_col_init in Hrun.
+    intros WF Hrun i i' Hi Hi'. pose proof (hsdp_sync cast R gs owner thr merge ms h) as Hs. unfold hsdp_col_run, hsdp_col_init in Hrun.
     destruct (ddp_replicas_agree _ _ _ _ _ c WF Hs Hrun i i' Hi Hi') as [Hv Hk].
     split; [|exact Hk]. unfold hsdp_shards. rewrite Hv. reflexivity.
   Qed.
 
   (* all ranks of a communication group issue the same sequence of collectives *)
   Theorem hsdp_collective_logs_equal cast R gs owner thr merge ms (T : list (list elem)) (h : list (pentry elem)) c :
-    wf_config (P cast R gs owner thr merge ms) -> sync_hyp (P cast R gs owner thr merge ms) (bentries thr merge ms h) ->
+    wf_config (P cast R gs owner thr merge ms) ->
     hsdp_col_run ds delem upd apply cast R gs owner thr merge ms T h = Some c ->
     forall i i', (i < R)%nat -> (i' < R)%nat -> grp (P cast R gs owner thr merge ms) i = grp (P cast R gs owner thr merge ms) i' ->
       gathers (log (cget c i)) = gathers (log (cget c i')).
   Proof.
-    intros WF Hs Hrun i i' Hi Hi' Hg. unfold hsdp_col_run, hsdp_col_init in Hrun.
+    intros WF Hrun i i' Hi Hi' Hg. pose proof (hsdp_sync cast R gs owner thr merge ms h) as Hs. unfold hsdp_col_run, hsdp_col_init in Hrun.
     exact (collective_logs_equal _ _ _ _ _ c WF Hs Hrun i i' Hi Hi' Hg).
   Qed.
 End Hsdp.
